@@ -98,6 +98,10 @@ def run_spec(spec, props=("C03",)):
     G, H, J = build(spec)
     n = spec["n"]; nodes = list(range(n))
     IC = {v: spec["IC"][v] for v in nodes}
+    if spec.get("extra_ic"):
+        # an IC written for a larger node set (e.g. the whole graph, while G is one component): entries of nodes that are
+        # not in G say nothing about G
+        IC[n + 5] = spec["IC"][0]; IC["ghost"] = spec["IC"][-1]; IC[-1] = spec["IC"][0]
     tmin = num(spec.get("tmin", 0)); tmax = num(spec.get("tmax", 3.5))
     full = bool(spec.get("full", False))
     stats = all_statuses(spec)
@@ -382,6 +386,9 @@ def specs(tier):
                                 IC=list(ic), tmax=2.5, bump=0.2, full=False))
         out.append(dict(fn="simple", name=name, n=3, edges=[(0, 1), (1, 2), (0, 2)], directed=False, H=Hs, J=Js,
                         IC=[alphabet[1 % len(alphabet)]] + [alphabet[0]] * 2, tmin=1.5, tmax=3.5, full=True))
+        for full in (False, True):
+            out.append(dict(fn="simple", name=name + "+extraIC", n=3, edges=[(0, 1), (1, 2)], directed=False, H=Hs, J=Js,
+                            IC=[alphabet[1 % len(alphabet)]] + [alphabet[0]] * 2, tmax=3.5, full=full, extra_ic=True))
         # array mode with only a subset of the statuses requested (the full-data object is only defined for complete status lists)
         out.append(dict(fn="simple", name=name + "+subset", n=3, edges=[(0, 1), (1, 2)], directed=False, H=Hs, J=Js,
                         IC=[alphabet[1 % len(alphabet)]] + [alphabet[0]] * 2, tmax=3.5, full=False, ret_subset=True))
